@@ -101,7 +101,7 @@ type Interp struct {
 	pcSet     map[int]bool
 	prefix    []Decision
 	decisions []Decision
-	newWork   [][]Decision
+	newWork   []workItem
 	steps     int
 	maxSteps  int
 	depth     int
@@ -402,11 +402,26 @@ func (in *Interp) nextPrefix(kind byte) (Decision, bool) {
 	return Decision{}, false
 }
 
+// workItem is an unexplored alternative: the decisions of the path that found it up to the fork (shared,
+// never written again) followed by the other decision.
+type workItem struct {
+	base []Decision
+	last Decision
+}
+
+func (w workItem) prefix() []Decision {
+	if w.base == nil && w.last.Kind == 0 {
+		return nil
+	}
+	p := make([]Decision, len(w.base)+1)
+	copy(p, w.base)
+	p[len(w.base)] = w.last
+	return p
+}
+
 func (in *Interp) pushAlt(d Decision) {
-	alt := make([]Decision, len(in.decisions)+1)
-	copy(alt, in.decisions)
-	alt[len(in.decisions)] = d
-	in.newWork = append(in.newWork, alt)
+	n := len(in.decisions)
+	in.newWork = append(in.newWork, workItem{base: in.decisions[:n:n], last: d})
 }
 
 // branch decides a boolean term on this path (forking if both sides are feasible).
